@@ -494,7 +494,9 @@ func (e *Env) call(x *ast.CallExpr) Val {
 		_, kh := cx.mapKeys(mt)
 		return Val{S: fmt.Sprintf("(select (select %s %s) %s)", e.heap(kh), m.S, k.S), T: types.Typ[types.Bool]}
 	case "traceSeq", "fullSeq":
-		return e.traceSeq(x, name == "fullSeq")
+		return e.traceSeq(x, name == "fullSeq", false)
+	case "writeSeq":
+		return e.traceSeq(x, true, true)
 	case "ncalls":
 		name := e.strArg(x, 0)
 		n := 0
@@ -1352,7 +1354,7 @@ var layoutCalls = map[string]bool{
 // fullSeq does not. Event descriptors: evLC(comments) evMap(pos) evNamedMap(line,col,name) evStr(s) evRune(r) evSemi()
 // evNode(n) (dynamic n.WriteTo) evChild(p) (static p.WriteTo on a concrete node) evPrec(n) (n.Precedence()) and, for
 // fullSeq, evSpace() evNewline() evIndent() evInc() evDec(); evCall("short key") matches any call of that callee.
-func (e *Env) traceSeq(x *ast.CallExpr, full bool) Val {
+func (e *Env) traceSeq(x *ast.CallExpr, full bool, writesOnly bool) Val {
 	cx := e.cx
 	start := 0
 	for i, ev := range e.trace {
@@ -1368,6 +1370,9 @@ func (e *Env) traceSeq(x *ast.CallExpr, full bool) Val {
 		if strings.HasSuffix(ev.name, "Precedence") {
 			continue // pure queries are not part of the emitted sequence
 		}
+		if strings.HasPrefix(ev.name, "Builder.") != writesOnly {
+			continue // writeSeq looks at the raw buffer writes only, the other patterns never do
+		}
 		evs = append(evs, ev)
 	}
 	falseV := Val{S: "false", T: types.Typ[types.Bool]}
@@ -1376,7 +1381,7 @@ func (e *Env) traceSeq(x *ast.CallExpr, full bool) Val {
 	wantName := map[string]string{
 		"evLC": "(*CodeWriter).WriteLeadingComments", "evMap": "(*CodeWriter).AddMapping", "evNamedMap": "(*CodeWriter).AddNamedMapping",
 		"evStr": "(*CodeWriter).WriteString", "evRune": "(*CodeWriter).WriteRune", "evSemi": "(*CodeWriter).WriteSemi",
-		"evNode": "slotWriteTo",
+		"evNode": "slotWriteTo", "evByte": "Builder.WriteByte", "evText": "Builder.WriteString",
 		"evSpace": "(*CodeWriter).WriteSpace", "evNewline": "(*CodeWriter).WriteNewline", "evIndent": "(*CodeWriter).WriteIndent",
 		"evInc": "(*CodeWriter).IncreaseIndent", "evDec": "(*CodeWriter).DecreaseIndent",
 	}
